@@ -92,7 +92,7 @@ Definition add_system (qk : quirks) (r : reg) (st : sstate) (d : string * list s
 
 (** [System.members]: memoised union of the members of its groups; an unknown group name is
     skipped with a warning.  Reading it fills the memos of the groups.  No group edit ever
-    resets this memo (F10). *)
+    resets this memo (F10); the repaired behaviour keeps no memo in the system. *)
 Definition sys_members (qk : quirks) (st : sstate) (name : string) : sstate * res sset :=
   match ss_systems st !! name with
   | None => (st, Err EKey)
@@ -114,7 +114,7 @@ Definition sys_members (qk : quirks) (st : sstate) (name : string) : sstate * re
                          | (gs, Err e) => (gs, Err e)
                          end) (elements (s_used s)) (ss_groups st, Ok ∅) in
           match r with
-          | Ok v => (SS gs (<[ name := Sys (s_base s) (s_used s) (Some v) ]> (ss_systems st)) (ss_default st) (ss_cache st), Ok v)
+          | Ok v => (SS gs (<[ name := Sys (s_base s) (s_used s) (if q_sys_memo_stale qk then Some v else None) ]> (ss_systems st)) (ss_default st) (ss_cache st), Ok v)
           | Err e => (ss_set_groups st gs, Err e)
           end
       end
